@@ -67,8 +67,9 @@ INSTANCE IgnoreAnonCore WITH LowBits <- 2
 VARIABLES ph,     \* phase of the script
           par,    \* the script's parameters
           cfg,    \* current configuration
+          reg,    \* registry of the extra persistent clients: [set, done]
           mem, file, unit
-vars == <<ph, par, cfg, mem, file, unit>>
+vars == <<ph, par, cfg, reg, mem, file, unit>>
 
 \* ----------------------------------------------------------------- universe
 \* Labels contain the boundary letters of the alphabet (the Go side varies
@@ -144,12 +145,40 @@ TogglePlans == IF Plans = "all" THEN {<<x, y, z>> : x \in Switches, y \in Switch
 \* Family I: every client variant, flags, list rotation, anonymisation and
 \* ANY-refusal, switches steady.  Family T: every toggle plan by either
 \* endpoint on one base configuration (client by exact IP, both flags).
-FamilyI == {[li |-> li, client |-> cf[1], fl |-> cf[2], refuseAny |-> ra, plan |-> Steady(an), ep |-> "put"] :
+FamilyI == {[li |-> li, client |-> cf[1], fl |-> cf[2], refuseAny |-> ra, plan |-> Steady(an), ep |-> "put", hist |-> <<>>] :
               li \in Lis, an \in BOOLEAN, ra \in BOOLEAN,
               cf \in ({<<NoClient, <<FALSE, FALSE>>>>} \cup (ClientVariants \X FlagPairs))}
 FamilyT == {[li |-> 2, client |-> [kind |-> "ip", addr |-> T4], fl |-> <<TRUE, TRUE>>, refuseAny |-> FALSE,
-             plan |-> pl, ep |-> ep] : pl \in TogglePlans, ep \in {"put", "legacy"}}
-Scripts == FamilyI \cup FamilyT
+             plan |-> pl, ep |-> ep, hist |-> <<>>] : pl \in TogglePlans, ep \in {"put", "legacy"}}
+
+\* Family N: nested subnets.  The primary client is the inner subnet around
+\* T4 (its flags flip as everywhere); the extra clients are the enclosing
+\* subnet O with the complementary flags and an unrelated, still longer subnet
+\* A.  Before the first query the registry goes through a history of
+\* AddClient / RemoveClient / UpdateClient calls.  Whatever the history, a
+\* sender belongs to the most specific client that is registered at the end.
+Op(o, w) == [op |-> o, who |-> w]
+Hists == { <<Op("add", "A"), Op("add", "O")>>,
+           <<Op("add", "O"), Op("add", "A")>>,
+           <<Op("add", "A"), Op("add", "O"), Op("del", "A")>>,
+           <<Op("add", "A"), Op("add", "O"), Op("del", "A"), Op("add", "A")>>,
+           <<Op("add", "A"), Op("add", "O"), Op("upd", "A")>>,
+           <<Op("add", "O"), Op("add", "A"), Op("upd", "O")>>,
+           <<Op("add", "A"), Op("add", "O"), Op("del", "O"), Op("add", "O")>> }
+FamilyN == {[li |-> 1, client |-> [kind |-> "cidr", fam |-> "v4", bits |-> <<0, 1, 1>>], fl |-> f,
+             refuseAny |-> FALSE, plan |-> Steady(an), ep |-> "put", hist |-> h] :
+              f \in FlagPairs, an \in BOOLEAN, h \in Hists}
+ExtraDef(p, w) ==
+    IF w = "O" THEN [id |-> [kind |-> "cidr", fam |-> "v4", bits |-> <<0, 1>>], flagQ |-> ~p.fl[1], flagS |-> ~p.fl[2]]
+    ELSE [id |-> [kind |-> "cidr", fam |-> "v4", bits |-> <<1, 0, 1, 0>>], flagQ |-> FALSE, flagS |-> FALSE]
+\* One registry call.  An update re-submits the client's data (the code
+\* removes and re-adds it).
+ApplyOp(p, set, o) == IF o.op = "del" THEN set \ {ExtraDef(p, o.who)} ELSE set \cup {ExtraDef(p, o.who)}
+RECURSIVE FoldOps(_, _, _)
+FoldOps(p, h, set) == IF h = <<>> THEN set ELSE FoldOps(p, Tail(h), ApplyOp(p, set, Head(h)))
+FinalReg(p) == FoldOps(p, p.hist, {})
+
+Scripts == FamilyI \cup FamilyT \cup FamilyN
 
 \* ------------------------------------------------------------ configurations
 HasClient(p) == p.client.kind # "none"
@@ -167,16 +196,17 @@ K(p, i) ==
      flagQ |-> HasClient(p) /\ (IF i % 2 = 0 THEN p.fl[1] ELSE ~p.fl[1]),
      flagS |-> HasClient(p) /\ (IF i = 0 THEN p.fl[2] ELSE ~p.fl[2]),
      anon |-> sw.anon, qlogOn |-> sw.qlogOn, statsOn |-> sw.statsOn,
-     refuseAny |-> p.refuseAny]
+     refuseAny |-> p.refuseAny,
+     extra |-> FinalReg(p)]
 
 \* ---------------------------------------------------------------- mechanism
 LookupAddr(c, q) == IF Design = "asbuilt" THEN StoredAddr(c, q) ELSE q.addr
 Refused(c, q)    == q.qt = "ANY" /\ c.refuseAny     \* answered by the proxy itself
 MechLog(c, q)    == /\ c.qlogOn /\ ~Refused(c, q)
-                    /\ ~(c.flagQ /\ IdentsBy(c.client, LookupAddr(c, q), q.cid))
+                    /\ ~IgnBy(c, "q", LookupAddr(c, q), q.cid)
                     /\ ~IgnoreMatch(c.ignQ, q.name)
 MechCount(c, q)  == /\ c.statsOn /\ ~Refused(c, q)
-                    /\ ~(c.flagS /\ IdentsBy(c.client, LookupAddr(c, q), q.cid))
+                    /\ ~IgnBy(c, "s", LookupAddr(c, q), q.cid)
                     /\ ~IgnoreMatch(c.ignS, q.name)
 
 \* A stored entry: the query's id (its round says which configuration it was
@@ -189,7 +219,7 @@ RecOf(e) == K(par, KOfRound(e.q[3]))
 \* The log API under configuration cur.  A stored entry can only be
 \* re-identified by what was stored.
 Visible(cur, e) == /\ ~IgnoreMatch(cur.ignQ, QOf(e).name)
-                   /\ ~(cur.flagQ /\ IdentsBy(cur.client, e.addr, QOf(e).cid))
+                   /\ ~IgnBy(cur, "q", e.addr, QOf(e).cid)
 Search(cur) == {e \in file : Visible(cur, e)}
                  \cup (IF Design = "asbuilt" THEN mem ELSE {e \in mem : Visible(cur, e)})
 \* The API masks the address on output with the current anonymiser.
@@ -204,6 +234,8 @@ ApiTbl(p, k) == UNION {{[q |-> q.id, v |-> ApiVerdict(K(p, i), K(p, k), q)] : q 
 AnonSince(p, r, k) == \A j \in KOfRound(r)..k : K(p, j).anon
 Vector(p) ==
     [kind |-> "script", par |-> p, k |-> <<K(p, 0), K(p, 1), K(p, 2), K(p, 3)>>,
+     \* the registry calls to make before the first query
+     hist |-> [i \in DOMAIN p.hist |-> [op |-> p.hist[i].op, who |-> p.hist[i].who, c |-> ExtraDef(p, p.hist[i].who)]],
      \* record-time verdicts
      log |-> NonYes(UNION {{[q |-> q.id, v |-> LogVerdict(K(p, i), q)] : q \in Batch(i)} : i \in 0..2}),
      cnt |-> NonYes(UNION {{[q |-> q.id, v |-> CountVerdict(K(p, i), q)] : q \in Batch(i)} : i \in 0..2}),
@@ -216,36 +248,46 @@ Universe == [kind |-> "universe", names |-> Names, senders |-> Senders, lowbits 
 
 \* ---------------------------------------------------------------- behaviour
 NoPar == [li |-> 0, client |-> NoClient, fl |-> <<FALSE, FALSE>>, refuseAny |-> FALSE,
-          plan |-> Steady(FALSE), ep |-> "put"]
+          plan |-> Steady(FALSE), ep |-> "put", hist |-> <<>>]
+NoReg == [set |-> {}, done |-> 0]
 
-Init == /\ ph = "universe" /\ par = NoPar /\ cfg = K(NoPar, 0)
+Init == /\ ph = "universe" /\ par = NoPar /\ cfg = K(NoPar, 0) /\ reg = NoReg
         /\ mem = {} /\ file = {} /\ unit = {}
 
 EmitUniverse ==
     /\ ph = "universe"
     /\ PrintT(<<"@@V", ToJson(Universe)>>)
     /\ ph' = "pick"
-    /\ UNCHANGED <<par, cfg, mem, file, unit>>
+    /\ UNCHANGED <<par, cfg, reg, mem, file, unit>>
 
 Pick ==
     /\ ph = "pick"
     /\ \E p \in Scripts : par' = p /\ cfg' = K(p, 0)
-    /\ ph' = "r1"
-    /\ UNCHANGED <<mem, file, unit>>
+    /\ ph' = "registry"
+    /\ UNCHANGED <<reg, mem, file, unit>>
+
+\* AddClient / RemoveClient / UpdateClient, one call of the history at a time.
+RegistryCall ==
+    /\ ph = "registry"
+    /\ IF reg.done < Len(par.hist)
+       THEN /\ reg' = [set |-> ApplyOp(par, reg.set, par.hist[reg.done + 1]), done |-> reg.done + 1]
+            /\ ph' = ph
+       ELSE /\ reg' = reg /\ ph' = "r1"
+    /\ UNCHANGED <<par, cfg, mem, file, unit>>
 
 Record(i, next) ==
     /\ mem'  = mem  \cup {Entry(cfg, q) : q \in {x \in Batch(i) : MechLog(cfg, x)}}
     /\ unit' = unit \cup {Entry(cfg, q) : q \in {x \in Batch(i) : MechCount(cfg, x)}}
     /\ ph' = next
-    /\ UNCHANGED <<par, cfg, file>>
+    /\ UNCHANGED <<par, cfg, reg, file>>
 
 FlushTo(next) == /\ file' = file \cup mem /\ mem' = {} /\ ph' = next
-                 /\ UNCHANGED <<par, cfg, unit>>
+                 /\ UNCHANGED <<par, cfg, reg, unit>>
 
 \* SetIgnoreLists + SetClientFlags + SetAnonymise + SetQueryLogEnabled +
 \* SetStatsEnabled in one step, as far as the script's plan changes them.
 Reconf(i, next) == /\ cfg' = K(par, i) /\ ph' = next
-                   /\ UNCHANGED <<par, mem, file, unit>>
+                   /\ UNCHANGED <<par, reg, mem, file, unit>>
 
 Record1 == ph = "r1" /\ Record(0, "flush1")
 Flush1  == ph = "flush1" /\ FlushTo("reconf1")
@@ -257,7 +299,7 @@ Record3 == ph = "r3" /\ Record(2, "reconf3")
 Reconf3 == /\ ph = "reconf3" /\ Reconf(3, "done")
            /\ PrintT(<<"@@V", ToJson(Vector(par))>>)
 
-Next == EmitUniverse \/ Pick \/ Record1 \/ Flush1 \/ Reconf1 \/ Record2 \/ Flush2 \/ Reconf2
+Next == EmitUniverse \/ Pick \/ RegistryCall \/ Record1 \/ Flush1 \/ Reconf1 \/ Record2 \/ Flush2 \/ Reconf2
           \/ Record3 \/ Reconf3
 Spec == Init /\ [][Next]_vars
 
@@ -268,6 +310,10 @@ CurIdx == CASE ph \in {"r2", "flush2", "reconf2"} -> 1
             [] ph \in {"r3", "reconf3"} -> 2
             [] ph = "done" -> 3
             [] OTHER -> 0
+
+\* The configurations handed to the harness describe the registry the history
+\* of calls really leads to.
+RegistryAsConfigured == ph \notin {"universe", "pick", "registry"} => reg.set = cfg.extra
 
 \* "... are never recorded in the query log (resp. statistics), neither in
 \* memory nor on disk"
@@ -285,7 +331,7 @@ SearchNames      == \A e \in Search(cfg) : ~IgnoreMatch(cfg.ignQ, QOf(e).name)
 \* identifies its sender (a ClientID, the full address, or an address whose
 \* anonymised form is still inside the client's subnet) ...
 SearchClientsIdentifiable ==
-    \A e \in Search(cfg) : ~(IgnoredClientQ(cfg, QOf(e)) /\ ~Lost(cfg.client, QOf(e), e.addr))
+    \A e \in Search(cfg) : ~(IgnoredClientQ(cfg, QOf(e)) /\ ~Lost(cfg, "q", QOf(e), e.addr))
 \* ... and as the statement literally says.  No mechanism can satisfy this one
 \* for entries stored anonymised (strict.cfg shows the counterexample).
 SearchClientsStrict == \A e \in Search(cfg) : ~IgnoredClientQ(cfg, QOf(e))
@@ -309,7 +355,7 @@ OracleConsistent ==
         AgreeApi(i) ==
             \A q \in Batch(i) :
                 LET rec == K(par, i) IN
-                /\ IsNo(ApiVerdict(rec, cfg, q)) /\ ~Lost(cfg.client, q, StoredAddr(rec, q)) => q.id \notin found
+                /\ IsNo(ApiVerdict(rec, cfg, q)) /\ ~Lost(cfg, "q", q, StoredAddr(rec, q)) => q.id \notin found
                 /\ ApiVerdict(rec, cfg, q) = "yes" => q.id \in found
     IN /\ ph = "reconf1" => Agree(0) /\ AgreeApi(0)
        /\ ph = "done"    => Agree(1) /\ Agree(2) /\ AgreeApi(0) /\ AgreeApi(1) /\ AgreeApi(2)
